@@ -67,7 +67,7 @@ ASSUMPTIONS = [
     "bytes.  A clean run means 'no report on N inputs', not a proof of memory safety.",
     "Compression libraries (zlib, cramjam) are outside the property: an ASan report without any frame in the "
     "extension is recorded as an observation, not a violation.",
-    "Non-termination is decided by the protocol above on CPU time (10 CPU-s of silence in the batch run, then 30 CPU-s alone, then 300 CPU-s alone), never by a single wall-clock timeout; a case that finishes in the last run is counted as slow_cases_that_finished; "
+    "Non-termination is decided by the protocol above on CPU time (10 CPU-s of silence in the batch run, then 30 CPU-s alone, then 150 CPU-s alone), never by a single wall-clock timeout; a case that finishes in the last run is counted as slow_cases_that_finished; "
     "a decoder that allocates > 1.5 GiB for an input of a few hundred bytes while looping is reported as "
     "non-termination with allocation (it would end in MemoryError, which the property also forbids).",
     "Outcome differences between the compiled and the pure-Python decoder that are not themselves refuting are "
@@ -83,7 +83,7 @@ PY = "/venv/bin/python"
 HERE = os.path.dirname(os.path.dirname(os.path.dirname(os.path.abspath(__file__))))
 SILENT_LIMIT = 10.0
 ALONE_LIMIT = 30.0
-LONG_LIMIT = 300.0         # CPU seconds of the last resort run that decides 'does not terminate'
+LONG_LIMIT = 150.0         # CPU seconds of the last resort run that decides 'does not terminate'
 RSS_CAP_KB = 1536 * 1024
 
 # --------------------------------------------------------------------------- corpus
@@ -674,7 +674,7 @@ class Server:
         t0 = time.monotonic()
         status, started, reason = self.monitor(pid, rfd, ALONE_LIMIT)
         log = _read_asan_log(self.logbase, pid)
-        if reason == "silent" and self.stats.get("hangs_confirmed:" + self.cases[idx].entry, 0) >= 2:
+        if reason == "silent" and self.stats.get("hangs_confirmed:" + self.cases[idx][0], 0) >= 2:
             # two cases of this entry point already burned the whole last-resort budget in this run: the tree is
             # violating anyway, do not spend another five minutes per case (keeps a shard of a broken tree inside its timeout)
             self.stats["long_runs_skipped"] = self.stats.get("long_runs_skipped", 0) + 1
@@ -693,7 +693,7 @@ class Server:
             if reason == "exit" and idx in self.results:
                 self.stats["slow_cases_that_finished"] = self.stats.get("slow_cases_that_finished", 0) + 1
             elif reason in ("silent", "rss"):
-                k = "hangs_confirmed:" + self.cases[idx].entry
+                k = "hangs_confirmed:" + self.cases[idx][0]
                 self.stats[k] = self.stats.get(k, 0) + 1
         pystack = ""
         try:
